@@ -506,7 +506,7 @@ pub fn run(cx: &mut Ctx) {
         c.sit("arc_offset_plus_0x60_overflow");
         let files = vec![("a.bin".to_string(), vec![1u8, 2, 3]), ("b.bin".to_string(), vec![4u8; 9])];
         let mut r = Rng::new(2);
-        for _ in 0..24 {
+        for _ in 0..(if cfg!(miri) { 3 } else { 24 }) {
             let plan = ArcPlan { padded_header: true, out_of_range_record: Some(r.below(2)), ..Default::default() };
             probe(c, &arc_build(&files, &plan, &mut r), "arc record range outside the data");
         }
@@ -514,7 +514,8 @@ pub fn run(cx: &mut Ctx) {
         let base = arc_build(&files, &ArcPlan { padded_header: true, ..Default::default() }, &mut Rng::new(3));
         if let Ok(p) = image::parse_strict(&base, false) {
             if let Some((addr, _)) = p.arch.labels.iter().find(|(_, l)| l.iter().any(|x| x == "Count")) {
-                for cnt in [0u32, 1, 3, 0x8000_0000, 0xFFFF_FFFF] {
+                let cnts: &[u32] = if cfg!(miri) { &[0, 0xFFFF_FFFF] } else { &[0, 1, 3, 0x8000_0000, 0xFFFF_FFFF] };
+                for &cnt in cnts {
                     let mut m = base.clone();
                     set32(&mut m, 0x20 + addr, cnt, false);
                     probe(c, &m, "arc Count word replaced");
@@ -538,7 +539,8 @@ pub fn run(cx: &mut Ctx) {
                 probe(c, &m, "aset without the AnimClipNameTable label");
             }
             // data size shortened so the clip table / a set ends mid-way
-            for cut in [4u32, 12, 16, 600, 1040, 1044, 1048] {
+            let cuts: &[u32] = if cfg!(miri) { &[12, 1044] } else { &[4, 12, 16, 600, 1040, 1044, 1048] };
+            for &cut in cuts {
                 let mut m = bytes.clone();
                 set32(&mut m, 4, cut, false);
                 probe(c, &m, "aset with a shortened data size");
